@@ -49,8 +49,9 @@ fn family_of(a: &Term, s: &Term) -> Option<Family> {
     Some(Family::new(u(a, 65535)? as u16, u(s, 255)? as u8))
 }
 
+/// FQDN capability strings: any well-formed UTF-8 (the Rust type is `String`)
 fn ascii(b: &[u8]) -> Option<String> {
-    if b.iter().all(|c| *c < 128) { String::from_utf8(b.to_vec()).ok() } else { None }
+    String::from_utf8(b.to_vec()).ok()
 }
 
 fn cap_of(t: &Term) -> Option<Capability> {
